@@ -712,8 +712,12 @@ class Searcher(object):
             c = collectors.UnlimitedCollector(reverse=reverse)
         else:
             # A collector that uses block quality optimizations and a heap
-            # queue to only collect the top N documents
-            c = collectors.TopCollector(limit, usequality=optimize)
+            # queue to only collect the top N documents. When documents are
+            # collapsed in an order other than their score, a low-scoring
+            # document can displace a high-scoring one of its group, so none
+            # may be skipped because of its score
+            usequality = optimize and not (collapse and collapse_order)
+            c = collectors.TopCollector(limit, usequality=usequality)
 
         if groupedby:
             c = collectors.FacetCollector(c, groupedby, maptype=maptype)
